@@ -90,6 +90,31 @@ Theorem C02_kind_and_component_type : forall n cc, let n' := comp_to_node (node_
 Proof. exact cdx_kind_and_type. Qed.
 Print Assumptions C02_kind_and_component_type.
 
+(* CycloneDX hash algorithms: every hash map whose algorithms are in the CycloneDX table comes back
+   unchanged (all 12 algorithms, generated table) *)
+Theorem C02_hashes : forall n cc, cdx_hash_class (n_hashes n) ->
+  n_hashes (comp_to_node (node_to_comp n) cc) = n_hashes n.
+Proof. exact cdx_node_hashes. Qed.
+Print Assumptions C02_hashes.
+
+(* purl and CPE *)
+Theorem C02_purl_and_cpe : forall n cc, cdx_ident_class (n_identifiers n) ->
+  n_identifiers (comp_to_node (node_to_comp n) cc) = n_identifiers n.
+Proof. exact cdx_node_identifiers. Qed.
+Print Assumptions C02_purl_and_cpe.
+
+(* external references with type, URL, comment and hashes — for each of the 39 reference types that
+   have a CycloneDX counterpart of their own *)
+Theorem C02_external_references : forall n cc, Forall cdx_extref_class (n_external_references n) ->
+  n_external_references (comp_to_node (node_to_comp n) cc) = n_external_references n.
+Proof. exact cdx_node_external_references. Qed.
+Print Assumptions C02_external_references.
+
+Theorem C02_external_reference_types_covered :
+  length (filter extref_type_rt ExternalReference_ExternalReferenceType_values) = 39%nat.
+Proof. exact extref_types_with_counterpart. Qed.
+Print Assumptions C02_external_reference_types_covered.
+
 (* licences: none or one is preserved; a longer list is NOT (known finding K13): the parser keeps
    the first entry only *)
 Theorem C02_licence_none_or_one : forall n cc,
